@@ -41,11 +41,15 @@ def cert_stage(res, tier, need, kernel_theorems, prop, extra_caps=()):
         # the property is decided by the certificates below (a harmless rewrite of Graph::new must not raise an alarm).
         side = sum(1 for v in construction.values() if v and all(v[:5]))
         sim = sum(1 for v in construction.values() if v and v[5])
+        full = sum(1 for v in construction.values() if v and len(v) >= 9 and v[6] and v[7])
+        iso = sum(1 for v in construction.values() if v and len(v) >= 9 and v[7] and v[8])
         res.cov['graph_construction_model'] = dict(definitions=len(construction), side_conditions_hold=side, bisimilar_to_captured_graph=sim,
-                                                   theorem='C01_maximal_munch_built', checker='extracted build_checked / gsim_ok')
+                                                   with_dedup_loop_bisimilar=full, with_dedup_loop_same_size_one_to_one=iso,
+                                                   theorem='C01_maximal_munch_built / C01_full_construction_correct',
+                                                   checker='extracted build_checked / dedup / gsim_ok')
         for k, v in construction.items():
             if not (v and all(v)):
-                log('construction model: %s side=%s gsim=%s' % (k, v[:5] if v else None, v[5] if v else None))
+                log('construction model: %s side=%s gsim=%s dedup=%s' % (k, v[:5] if v else None, v[5] if v else None, v[6:] if v else None))
     failing = []
     idx = [CERT_NAMES.index(n) for n in need]
     for c in allcaps:
@@ -440,7 +444,7 @@ def k11_byteclass(res, tier, caps):
 
 
 def check_C01(tier):
-    return engine_property('C01', tier, ['C01_maximal_munch', 'C01_stream_eq_spec', 'C01_construction_correct', 'C01_maximal_munch_built', 'C01_bisimilar_graphs_agree', 'C01_merged_class_is_union', 'C01_merged_class_canonical', 'C01_edge_condition_exact'], ['dfa_ok', 'sim_ok', 'exact_ok'], [certs.TH_C01, certs.TH_C01S], ['tc', 'sm'], (0,),
+    return engine_property('C01', tier, ['C01_maximal_munch', 'C01_stream_eq_spec', 'C01_construction_correct', 'C01_maximal_munch_built', 'C01_bisimilar_graphs_agree', 'C01_merged_class_is_union', 'C01_merged_class_canonical', 'C01_edge_condition_exact', 'C01_dedup_preserves_walks', 'C01_full_construction_correct'], ['dfa_ok', 'sim_ok', 'exact_ok'], [certs.TH_C01, certs.TH_C01S], ['tc', 'sm'], (0,),
                            {'ok-item', 'spec-ok-item', 'graph-differs'}, {'ok-item'},
                            RULE_ENGINE % ('dfa_ok+sim_ok', 'Ok items (variant, span) and item kinds, per feature set, against the graph executor and the DFA-level specification'),
                            ASSUME_ENGINE)
@@ -566,7 +570,7 @@ def check_C06(tier):
 
 def check_C20(tier):
     res = Result('C20', tier)
-    framework(res, ['C20_reads_monotone_linear', 'C06_opt_is_ref'])
+    framework(res, ['C20_reads_monotone_linear', 'C20_emitted_reads_monotone_linear', 'C06_opt_is_ref'])
     fss = ['tc', 'sm']
     sets = ce.compiled_sets(tier, fss)
     drv = build.extraction_build()
@@ -791,6 +795,45 @@ def check_C05(tier):
     res.trusted += ['Coq kernel + vm_compute (model evaluation in coqc)', 'harness read mode']
     res.assumptions += ['machine-level memory safety of unsafe pointer reads is modelled as index bounds; no sanitizer result is claimed (partial)',
                         'inputs are exact-size heap allocations (Box<[u8]>) in the harness']
+    # K13 guarded placement: the source sits in the middle of a larger buffer filled with 0x80 / 0xBF / 'a' / 0 / 0xE2;
+    # the items must not depend on the fill byte (a dependence means bytes outside the source were read) and must equal
+    # the items of the exact-size run
+    nguard = 0; ng = 0
+    for b in [('tc', 'debug'), ('tc', 'release')]:
+        rngg = random.Random(seed() * 17 + 3)
+        for label, h, enums in setsby[b]:
+            exe, caps = h[b[0]]
+            runs = []; meta = []
+            for en in sorted(caps):
+                c = caps[en]
+                if not ce.usable(c) or None in engine.behaviour_codes(c):
+                    continue
+                ps = ce.make_probes(c, rngg, 'quick')
+                rngg.shuffle(ps)
+                for k, p_ in enumerate(ps[:(25 if tier == 'quick' else 120)]):
+                    if c.utf8 and not probes.is_utf8(p_):
+                        continue
+                    runs.append(('%s.%d.g' % (en, k), en, 4, p_)); runs.append(('%s.%d.n' % (en, k), en, 0, p_))
+                    meta.append((en, k, p_))
+            real = engine.run_real(exe, runs)
+            for en, k, p_ in meta:
+                rg, rn = real.get('%s.%d.g' % (en, k)), real.get('%s.%d.n' % (en, k))
+                ng += 1
+                bad = None
+                if rg is None or rn is None:
+                    bad = 'no result'
+                elif rg.get('guarddiff') is not None:
+                    bad = 'result depends on the bytes around the source: %s vs %s' % (rg['raw'][:120], rg['guarddiff'][:120])
+                elif rg['items'] != rn['items'] or rg['finals'][:1] != rn['finals'][:1] or (rg['panic'] is None) != (rn['panic'] is None):
+                    bad = 'guarded run %s differs from the exact-size run %s' % (rg['raw'][:120], rn['raw'][:120])
+                if bad:
+                    nguard += 1
+                    if nguard <= 4:
+                        res.violation(None, '%s/%s/%s on %r: %s' % (en, b[0], b[1], p_, bad),
+                                      dict(definition=ce.enum_source(dict((l_, e_) for l_, _, e_ in setsby[b])[label], en), enum=en, featureset=b[0], profile=b[1],
+                                           input_hex=p_.hex(), input=repr(p_)))
+    res.oblige(nguard == 0)
+    res.count('guarded_placement_probes', ng)
     return res.finish('./vcheck C05 --tier ' + tier)
 
 
@@ -978,11 +1021,15 @@ def utf8_cert_stage(res, tier, prop, extra_files=()):
         # the property is decided by the certificates below (a harmless rewrite of Graph::new must not raise an alarm).
         side = sum(1 for v in construction.values() if v and all(v[:5]))
         sim = sum(1 for v in construction.values() if v and v[5])
+        full = sum(1 for v in construction.values() if v and len(v) >= 9 and v[6] and v[7])
+        iso = sum(1 for v in construction.values() if v and len(v) >= 9 and v[7] and v[8])
         res.cov['graph_construction_model'] = dict(definitions=len(construction), side_conditions_hold=side, bisimilar_to_captured_graph=sim,
-                                                   theorem='C01_maximal_munch_built', checker='extracted build_checked / gsim_ok')
+                                                   with_dedup_loop_bisimilar=full, with_dedup_loop_same_size_one_to_one=iso,
+                                                   theorem='C01_maximal_munch_built / C01_full_construction_correct',
+                                                   checker='extracted build_checked / dedup / gsim_ok')
         for k, v in construction.items():
             if not (v and all(v)):
-                log('construction model: %s side=%s gsim=%s' % (k, v[:5] if v else None, v[5] if v else None))
+                log('construction model: %s side=%s gsim=%s dedup=%s' % (k, v[:5] if v else None, v[5] if v else None, v[6:] if v else None))
     failing = []
     nstr = 0
     for c in allcaps:
@@ -1336,7 +1383,8 @@ def check_C10(tier):
     rng = random.Random(seed() * 31 + 10)
     n = 60 if tier == 'quick' else 600
     defs = []   # (name, source, kind, info)
-    fixed = ['mask', 'k', 's', 'KS', 'Kelvin', 'ſ', 'K', 'ß', 'ǆ', 'σς', 'i', 'I', 'İ', 'a.b', '(x)', 'a|b', '[k]', 'k+', 's*', '\\', '^$', '{2}', '-~', '#&']
+    fixed = ['mask', 'k', 's', 'KS', 'Kelvin', 'ſ', 'K', 'ß', 'ǆ', 'σς', 'i', 'I', 'İ', 'a.b', '(x)', 'a|b', '[k]', 'k+', 's*', '\\', '^$', '{2}', '-~', '#&',
+             '<>', '=>', 'br>', '</a', 'a<b', '!"%', "',/", ':;@', '_`=', 'b<', 'B>z']
     for i in range(n):
         lit = fixed[i] if i < len(fixed) else fg.random_literal(rng)
         defs.append(('TokS%d' % i, '#[derive(Logos)] enum TokS%d { #[token(%s)] A, #[regex("[0-9]+")] N }' % (i, fg.rust_str_lit(lit)), 'tok', dict(lit=lit.encode('utf8'), bytes=False)))
@@ -2002,7 +2050,7 @@ def check_C19(tier):
     pdir = cache_dir('c19probe')
     os.makedirs(os.path.join(pdir, 'src'), exist_ok=True)
     defs = []
-    for c in list(curated) + list(randcaps)[:(100 if tier == 'quick' else 100000)]:
+    for c in list(curated) + list(randcaps)[:(100 if tier == "quick" else 600)]:
         if c.source:
             defs.append((c.id, c.source, c))
     lib = ['#![allow(dead_code, unused)]']
